@@ -497,7 +497,19 @@ func (g *vc26Gen) arg(c *Call, used map[string]bool, depth int, reservedOK bool)
 			g.wantErr = "range"
 			g.feat("int:outofrange")
 		}
-		return lotxt + g.sp() + op1 + g.sp() + f + g.sp() + op2 + g.sp() + strconv.FormatInt(hi, 10) + g.sp()
+		hitxt := strconv.FormatInt(hi, 10)
+		if g.wantErr == "" && !vkit.Open("DP3") && rapid.IntRange(0, 80).Draw(g.t, "cioorhi") == 0 {
+			hitxt = rapid.SampledFrom([]string{"9223372036854775808", "-9223372036854775809", "99999999999999999999"}).Draw(g.t, "cioorhitxt")
+			g.wantErr = "range"
+			g.feat("int:outofrange")
+		}
+		if overflow && op1 == "<" && lo == math.MaxInt64 {
+			g.feat("conditional:strict-lo-max")
+		}
+		if overflow && op2 == "<" && hi == math.MinInt64 {
+			g.feat("conditional:strict-hi-min")
+		}
+		return lotxt + g.sp() + op1 + g.sp() + f + g.sp() + op2 + g.sp() + hitxt + g.sp()
 	}
 }
 
